@@ -500,7 +500,7 @@ namespace OpenMEEG {
 
             //  Only consider connected sets with more than one component and that are not isolated.
 
-            if (conn.size()>1 && !conn.front()->isolated())
+            if (conn.size()>=1 && !conn.front()->isolated())
                 independant_parts.push_back(conn);
         }
 
